@@ -278,6 +278,9 @@ def panic_obligations(F, res, roots, prop_rows, cg=None, grammar=None, crates=No
                 by = discharge.try_all(fi, mir.DefUse(fi), mir.CFG(fi), s)
                 if by:
                     by += " (guard in an inlined helper)"
+        if by is None and s.kind in ("K2", "K3", "K4"):
+            # ... or the other way round: the site was moved into a helper and the guard stayed in the caller(s)
+            by = discharge.try_in_callers(F, f, s)
         if by is None:
             for ex in extra:
                 by = ex(s)
